@@ -702,10 +702,11 @@ pub fn check(ctx: &mut Ctx) {
 	ctx.run_sub(&PositionalMethodNotification);
 	ctx.run_sub(&StalledSend);
 	ctx.run_sub(&IdReusedAfterUnsubscribe);
+	ctx.run_sub(&LagCorners);
 }
 
 pub fn replay(file: &serde_json::Value) -> Option<i32> {
-	replay_with(&Streams, file, "C05").or_else(|| replay_with(&DroppedWithFullQueue, file, "C05")).or_else(|| replay_with(&PositionalMethodNotification, file, "C05")).or_else(|| replay_with(&StalledSend, file, "C05")).or_else(|| replay_with(&IdReusedAfterUnsubscribe, file, "C05"))
+	replay_with(&Streams, file, "C05").or_else(|| replay_with(&DroppedWithFullQueue, file, "C05")).or_else(|| replay_with(&PositionalMethodNotification, file, "C05")).or_else(|| replay_with(&StalledSend, file, "C05")).or_else(|| replay_with(&IdReusedAfterUnsubscribe, file, "C05")).or_else(|| replay_with(&LagCorners, file, "C05"))
 }
 
 // ---------------------------------------------------------------------------------------------
@@ -1051,6 +1052,123 @@ impl SubCheck for IdReusedAfterUnsubscribe {
 			obs.check(mc.client.is_connected(), "c05/client-disconnected", || desc());
 			obs.nontrivial();
 			obs.class(if case.slow_write { "reuse:unsubscribe-write-completes-late" } else { "reuse:plain" });
+		});
+	}
+}
+
+// ---------------------------------------------------------------------------------------------
+// a subscription falls behind inside an array that also carries the answers of a pending batch;
+// a subscription falls behind, is given up, and the next holder of its id falls behind as well
+// ---------------------------------------------------------------------------------------------
+
+#[derive(Clone, Debug, Serialize, Deserialize)]
+pub struct LagCase {
+	pub id_kind: IdK,
+	pub string_sub_id: bool,
+	/// 0 = the items that make the subscription lag come in one array together with the answers of a pending batch
+	///     (answers first / last / around the items),
+	/// 1 = the subscription lags, is unsubscribed and acknowledged; a new subscription gets the same id and lags too
+	pub scenario: u8,
+	pub layout: u8,
+}
+
+pub struct LagCorners;
+
+impl SubCheck for LagCorners {
+	type Case = LagCase;
+	fn name(&self) -> &'static str {
+		"lag-corners"
+	}
+	fn cases(&self, tier: Tier) -> u32 {
+		tier.pick(600, 6_000)
+	}
+	fn strategy(&self, _tier: Tier) -> BoxedStrategy<LagCase> {
+		(prop_oneof![Just(IdK::Number), Just(IdK::String)], any::<bool>(), 0u8..2, 0u8..3).prop_map(|(id_kind, string_sub_id, scenario, layout)| LagCase { id_kind, string_sub_id, scenario, layout }).boxed()
+	}
+	fn run(&self, case: &LagCase, obs: &mut Obs) {
+		use jsonrpsee_core::client::ClientT;
+		let rt = rt();
+		rt.block_on(async {
+			let mc = MockClient::new(ClientCfg { id_kind: case.id_kind, sub_buffer: 1, ..ClientCfg::default() });
+			let desc = || format!("case={case:?} wire={:?} events={:?}", mc.wire_all(), mc.shared.events.lock());
+			let sid = if case.string_sub_id { json!("lagging") } else { json!(5) };
+			let item = |n: u32| json!({"jsonrpc":"2.0","method":"feed","params":{"subscription":sid,"result":{"n": n}}});
+			let rounds = if case.scenario % 2 == 1 { 2 } else { 1 };
+			obs.nontrivial();
+			obs.class(if rounds == 2 { "lag:twice-under-one-id" } else { "lag:inside-an-array-with-batch-answers" });
+			for round in 0..rounds {
+				let c = mc.client.clone();
+				let name = format!("sub_{round}");
+				let name2 = name.clone();
+				let t = tokio::spawn(async move { c.subscribe::<Value, _>(&name2, rpc_params![], "unsub").await });
+				settle().await;
+				let Some(id) = wire_id_of(&mc.wire_all(), &name) else {
+					obs.fail("c05/subscribe-not-sent", desc());
+					return;
+				};
+				mc.push_text(json!({"jsonrpc":"2.0","id":id,"result":sid}).to_string());
+				settle().await;
+				let Some(Ok(Ok(mut stream))) = t.now_or_never() else {
+					obs.fail("c05/subscribe-failed", format!("round {round}; {}", desc()));
+					return;
+				};
+				let unsubs_before = mc.wire_all().iter().filter(|m| m["method"] == json!("unsub")).count();
+				if rounds == 1 {
+					// a batch is pending; its answers and the items come in one array
+					let c = mc.client.clone();
+					let tb = tokio::spawn(async move {
+						let mut b = jsonrpsee_core::params::BatchRequestBuilder::new();
+						b.insert("b0", rpc_params![]).unwrap();
+						b.insert("b1", rpc_params![]).unwrap();
+						c.batch_request::<Value>(b).await.map(|r| r.into_iter().map(|e| e.ok()).collect::<Vec<_>>()).map_err(|e| format!("{e:?}"))
+					});
+					settle().await;
+					let w = mc.wire_all();
+					let ids: Vec<Value> = w.iter().filter_map(|m| m.as_array()).flatten().map(|e| e["id"].clone()).collect();
+					if ids.len() != 2 {
+						obs.fail("c05/batch-not-sent", desc());
+						return;
+					}
+					let a0 = json!({"jsonrpc":"2.0","id":ids[0],"result":"r0"});
+					let a1 = json!({"jsonrpc":"2.0","id":ids[1],"result":"r1"});
+					let arr = match case.layout % 3 {
+						0 => vec![a0, a1, item(0), item(1), item(2)],
+						1 => vec![item(0), item(1), item(2), a0, a1],
+						_ => vec![a0, item(0), item(1), item(2), a1],
+					};
+					mc.push_text(Value::Array(arr).to_string());
+					settle().await;
+					match tb.now_or_never() {
+						Some(Ok(Ok(v))) if v == vec![Some(json!("r0")), Some(json!("r1"))] => {}
+						other => obs.fail("c05/batch-in-the-same-array-not-completed", format!("{other:?}; {}", desc())),
+					}
+				} else {
+					for n in 0..3 {
+						mc.push_text(item(n).to_string());
+					}
+					settle().await;
+				}
+				// the stream yields what fitted, ends, and reports why; exactly one unsubscribe request went out for it
+				let first = stream.next().now_or_never();
+				obs.check(matches!(&first, Some(Some(Ok(v))) if *v == json!({"n": 0})), "c05/stream-lost-items", || format!("round {round}: {first:?}; {}", desc()));
+				let end = stream.next().now_or_never();
+				obs.check(matches!(end, Some(None)), "c05/stream-end-state", || format!("round {round}: the subscription fell behind but its stream did not end: {end:?}; {}", desc()));
+				obs.check(matches!(stream.close_reason(), Some(SubscriptionCloseReason::Lagged)), "c05/stream-end-state", || format!("round {round}: ended as {:?}; {}", stream.close_reason(), desc()));
+				let w = mc.wire_all();
+				let new_unsubs: Vec<&Value> = w.iter().filter(|m| m["method"] == json!("unsub")).skip(unsubs_before).collect();
+				obs.check(new_unsubs.len() == 1 && new_unsubs[0]["params"] == json!([sid]), "c05/unsubscribe-request-count", || format!("round {round}: {} unsubscribe requests after the subscription fell behind; {}", new_unsubs.len(), desc()));
+				// the server acknowledges; the application lets go of the stream
+				for u in new_unsubs {
+					mc.push_text(json!({"jsonrpc":"2.0","id":u["id"],"result":true}).to_string());
+				}
+				settle().await;
+				drop(stream);
+				settle().await;
+				if !obs.failures.is_empty() {
+					return;
+				}
+			}
+			obs.check(mc.client.is_connected(), "c05/client-disconnected", || desc());
 		});
 	}
 }
